@@ -659,6 +659,126 @@ def «qsbr.urcu_qsbr_unregister_thread» : Stmt :=
   block [(.call none [] [] «_urcu_qsbr_thread_offline»), (.assign "_t1" (.lit 0)), (.pstore (.fieldAddr (.addrTls "urcu_qsbr_reader") "registered") (.var "_t1")), (.prim none (.ext "mutex_lock") [.addrGlob "rcu_registry_lock"]), (.prim none (.ext "cds_list_del") [.fieldAddr (.addrTls "urcu_qsbr_reader") "node"]), (.prim none (.ext "mutex_unlock") [.addrGlob "rcu_registry_lock"])]
 def «qsbr.urcu_qsbr_unregister_thread.params» : List String := []
 
+/-- `bucket_at` (src/rculfhash.c) -/
+def «lfht.bucket_at» : Stmt :=
+  block [(.prim (some "_t1") (.ext "(*bucket_at)") [.pload (.fieldAddr (.var "ht") "bucket_at"), .var "ht", .var "index"]), (.ret (some (.var "_t1")))]
+def «lfht.bucket_at.params» : List String := ["ht", "index"]
+
+/-- `lookup_bucket` (src/rculfhash.c) -/
+def «lfht.lookup_bucket» : Stmt :=
+  block [(.call (some "_t1") ["ht", "index"] [.var "ht", .bin .band (.var "hash") (.bin .sub (.var "size") (.lit 1))] «lfht.bucket_at»), (.ret (some (.var "_t1")))]
+def «lfht.lookup_bucket.params» : List String := ["ht", "size", "hash"]
+
+/-- `is_bucket` (src/rculfhash.c) -/
+def «lfht.is_bucket» : Stmt :=
+  .ret (some (.bin .tagand (.var "node") (.cst "lfht.BUCKET_FLAG" (2))))
+def «lfht.is_bucket.params» : List String := ["node"]
+
+/-- `is_removed` (src/rculfhash.c) -/
+def «lfht.is_removed» : Stmt :=
+  .ret (some (.bin .tagand (.var "node") (.cst "lfht.REMOVED_FLAG" (1))))
+def «lfht.is_removed.params» : List String := ["node"]
+
+/-- `is_removal_owner` (src/rculfhash.c) -/
+def «lfht.is_removal_owner» : Stmt :=
+  .ret (some (.bin .tagand (.var "node") (.cst "lfht.REMOVAL_OWNER_FLAG" (4))))
+def «lfht.is_removal_owner.params» : List String := ["node"]
+
+/-- `clear_flag` (src/rculfhash.c) -/
+def «lfht.clear_flag» : Stmt :=
+  .ret (some (.bin .tagand (.var "node") (.cst "NOT_FLAGS_MASK" (18446744073709551608))))
+def «lfht.clear_flag.params» : List String := ["node"]
+
+/-- `is_end` (src/rculfhash.c) -/
+def «lfht.is_end» : Stmt :=
+  block [(.call (some "_t1") ["node"] [.var "node"] «lfht.clear_flag»), (.ret (some (.bin .eq (.var "_t1") (.cst "lfht.END_VALUE" (0)))))]
+def «lfht.is_end.params» : List String := ["node"]
+
+/-- `flag_bucket` (src/rculfhash.c) -/
+def «lfht.flag_bucket» : Stmt :=
+  .ret (some (.bin .tagor (.var "node") (.cst "lfht.BUCKET_FLAG" (2))))
+def «lfht.flag_bucket.params» : List String := ["node"]
+
+/-- `_cds_lfht_gc_bucket` (src/rculfhash.c) -/
+def «lfht._cds_lfht_gc_bucket» : Stmt :=
+  block [(.call (some "_t1") ["node"] [.var "bucket"] «lfht.is_bucket»), (.ifte (.un .lnot (.var "_t1")) (.skip) (.prim none (.ext "abort") [])), (.call (some "_t2") ["node"] [.var "bucket"] «lfht.is_removed»), (.ifte (.un .lnot (.var "_t2")) (.skip) (.prim none (.ext "abort") [])), (.call (some "_t3") ["node"] [.var "bucket"] «lfht.is_removal_owner»), (.ifte (.un .lnot (.var "_t3")) (.skip) (.prim none (.ext "abort") [])), (.call (some "_t4") ["node"] [.var "node"] «lfht.is_bucket»), (.ifte (.un .lnot (.var "_t4")) (.skip) (.prim none (.ext "abort") [])), (.call (some "_t5") ["node"] [.var "node"] «lfht.is_removed»), (.ifte (.un .lnot (.var "_t5")) (.skip) (.prim none (.ext "abort") [])), (.call (some "_t6") ["node"] [.var "node"] «lfht.is_removal_owner»), (.ifte (.un .lnot (.var "_t6")) (.skip) (.prim none (.ext "abort") [])), (.loop (block [(.assign "iter_prev" (.var "bucket")), (.prim (some "_t7") .uload [.fieldAddr (.var "iter_prev") "next", .cst "CMM_CONSUME" (1)]), (.assign "iter" (.var "_t7")), (.call (some "_t8") ["node"] [.var "iter"] «lfht.is_removed»), (.ifte (.un .lnot (.var "_t8")) (.skip) (.prim none (.ext "abort") [])), (.call (some "_t9") ["node"] [.var "iter"] «lfht.is_removal_owner»), (.ifte (.un .lnot (.var "_t9")) (.skip) (.prim none (.ext "abort") [])), (.loop (block [(.call (some "_t10") ["node"] [.var "iter"] «lfht.is_end»), (.ifte (.var "_t10") (.ret none) (.skip)), (.call (some "_t11") ["node"] [.var "iter"] «lfht.clear_flag»), (.ifte (.bin .gt (.pload (.fieldAddr (.var "_t11") "reverse_hash")) (.pload (.fieldAddr (.var "node") "reverse_hash"))) (.ret none) (.skip)), (.call (some "_t12") ["node"] [.var "iter"] «lfht.clear_flag»), (.prim (some "_t13") .uload [.fieldAddr (.var "_t12") "next", .cst "CMM_CONSUME" (1)]), (.assign "next" (.var "_t13")), (.call (some "_t14") ["node"] [.var "next"] «lfht.is_removed»), (.ifte (.var "_t14") (.brk) (.skip)), (.call (some "_t15") ["node"] [.var "iter"] «lfht.clear_flag»), (.assign "iter_prev" (.var "_t15")), (.assign "iter" (.var "next"))])), (.call (some "_t16") ["node"] [.var "iter"] «lfht.is_removed»), (.ifte (.un .lnot (.var "_t16")) (.skip) (.prim none (.ext "abort") [])), (.call (some "_t17") ["node"] [.var "iter"] «lfht.is_removal_owner»), (.ifte (.un .lnot (.var "_t17")) (.skip) (.prim none (.ext "abort") [])), (.call (some "_t18") ["node"] [.var "iter"] «lfht.is_bucket»), (.ifte (.var "_t18") (block [(.call (some "_t19") ["node"] [.var "next"] «lfht.clear_flag»), (.call (some "_t20") ["node"] [.var "_t19"] «lfht.flag_bucket»), (.assign "new_next" (.var "_t20"))]) (block [(.call (some "_t21") ["node"] [.var "next"] «lfht.clear_flag»), (.assign "new_next" (.var "_t21"))])), (.prim none .ucmpxchg [.fieldAddr (.var "iter_prev") "next", .var "iter", .var "new_next", .cst "CMM_SEQ_CST_FENCE" (6), .cst "CMM_RELAXED" (0)])]))]
+def «lfht._cds_lfht_gc_bucket.params» : List String := ["bucket", "node"]
+
+/-- `cds_lfht_next_duplicate` (src/rculfhash.c) -/
+def «lfht.cds_lfht_next_duplicate» : Stmt :=
+  block [(.prim none (.ext "cds_lfht_iter_debug_assert") [.bin .eq (.var "ht") (.pload (.fieldAddr (.var "iter") "lfht"))]), (.assign "node" (.pload (.fieldAddr (.var "iter") "node"))), (.assign "reverse_hash" (.pload (.fieldAddr (.var "node") "reverse_hash"))), (.assign "next" (.pload (.fieldAddr (.var "iter") "next"))), (.call (some "_t1") ["node"] [.var "next"] «lfht.clear_flag»), (.assign "node" (.var "_t1")), (.loop (block [(.call (some "_t2") ["node"] [.var "node"] «lfht.is_end»), (.ifte (.var "_t2") (block [(.assign "next" (.null)), (.assign "node" (.var "next")), (.brk)]) (.skip)), (.ifte (.bin .gt (.pload (.fieldAddr (.var "node") "reverse_hash")) (.var "reverse_hash")) (block [(.assign "next" (.null)), (.assign "node" (.var "next")), (.brk)]) (.skip)), (.prim (some "_t3") .uload [.fieldAddr (.var "node") "next", .cst "CMM_CONSUME" (1)]), (.assign "next" (.var "_t3")), (.call (some "_t4") ["node"] [.var "next"] «lfht.is_removed»), (.ifte (.un .lnot (.var "_t4")) (block [(.call (some "_t5") ["node"] [.var "next"] «lfht.is_bucket»), (.assign "_t6" (.un .lnot (.un .lnot (.un .lnot (.var "_t5")))))]) (.assign "_t6" (.lit 0))), (.ifte (.var "_t6") (block [(.prim (some "_t7") (.ext "match") [.var "node", .var "key"]), (.assign "_t8" (.un .lnot (.un .lnot (.var "_t7"))))]) (.assign "_t8" (.lit 0))), (.ifte (.var "_t8") (.brk) (.skip)), (.call (some "_t9") ["node"] [.var "next"] «lfht.clear_flag»), (.assign "node" (.var "_t9"))])), (.ifte (.un .lnot (.var "node")) (.assign "_t12" (.lit 1)) (block [(.prim (some "_t10") .uload [.fieldAddr (.var "node") "next", .cst "CMM_RELAXED" (0)]), (.call (some "_t11") ["node"] [.var "_t10"] «lfht.is_bucket»), (.assign "_t12" (.un .lnot (.un .lnot (.un .lnot (.var "_t11")))))])), (.ifte (.var "_t12") (.skip) (.prim none (.ext "abort") [])), (.assign "_t13" (.var "node")), (.pstore (.fieldAddr (.var "iter") "node") (.var "_t13")), (.assign "_t14" (.var "next")), (.pstore (.fieldAddr (.var "iter") "next") (.var "_t14"))]
+def «lfht.cds_lfht_next_duplicate.params» : List String := ["ht", "match", "key", "iter"]
+
+/-- `_cds_lfht_add` (src/rculfhash.c) -/
+def «lfht._cds_lfht_add» : Stmt :=
+  block [(.assign "_goto_end" (.lit 0)), (.assign "_goto_gc_node" (.lit 0)), (.assign "_goto_insert" (.lit 0)), (.call (some "_t1") ["node"] [.var "node"] «lfht.is_bucket»), (.ifte (.un .lnot (.var "_t1")) (.skip) (.prim none (.ext "abort") [])), (.call (some "_t2") ["node"] [.var "node"] «lfht.is_removed»), (.ifte (.un .lnot (.var "_t2")) (.skip) (.prim none (.ext "abort") [])), (.call (some "_t3") ["node"] [.var "node"] «lfht.is_removal_owner»), (.ifte (.un .lnot (.var "_t3")) (.skip) (.prim none (.ext "abort") [])), (.call (some "_t4") ["ht", "size", "hash"] [.var "ht", .var "size", .var "hash"] «lfht.lookup_bucket»), (.assign "bucket" (.var "_t4")), (.loop (block [(.assign "chain_len" (.lit 0)), (.assign "iter_prev" (.var "bucket")), (.prim (some "_t5") .uload [.fieldAddr (.var "iter_prev") "next", .cst "CMM_CONSUME" (1)]), (.assign "iter" (.var "_t5")), (.loop (block [(.call (some "_t6") ["node"] [.var "iter"] «lfht.is_end»), (.ifte (.var "_t6") (block [(.assign "_goto_insert" (.lit 1)), (.brk)]) (.skip)), (.ifte (.var "_goto_insert") (.brk) (block [(.call (some "_t7") ["node"] [.var "iter"] «lfht.clear_flag»), (.ifte (.bin .gt (.pload (.fieldAddr (.var "_t7") "reverse_hash")) (.pload (.fieldAddr (.var "node") "reverse_hash"))) (block [(.assign "_goto_insert" (.lit 1)), (.brk)]) (.skip)), (.ifte (.var "_goto_insert") (.brk) (block [(.ifte (.var "bucket_flag") (block [(.call (some "_t8") ["node"] [.var "iter"] «lfht.clear_flag»), (.assign "_t9" (.un .lnot (.un .lnot (.bin .eq (.pload (.fieldAddr (.var "_t8") "reverse_hash")) (.pload (.fieldAddr (.var "node") "reverse_hash"))))))]) (.assign "_t9" (.lit 0))), (.ifte (.var "_t9") (block [(.assign "_goto_insert" (.lit 1)), (.brk)]) (.skip)), (.ifte (.var "_goto_insert") (.brk) (block [(.call (some "_t10") ["node"] [.var "iter"] «lfht.clear_flag»), (.prim (some "_t11") .uload [.fieldAddr (.var "_t10") "next", .cst "CMM_CONSUME" (1)]), (.assign "next" (.var "_t11")), (.call (some "_t12") ["node"] [.var "next"] «lfht.is_removed»), (.ifte (.var "_t12") (block [(.assign "_goto_gc_node" (.lit 1)), (.brk)]) (.skip)), (.ifte (.var "_goto_gc_node") (.brk) (block [(.ifte (.var "unique_ret") (block [(.call (some "_t13") ["node"] [.var "next"] «lfht.is_bucket»), (.assign "_t14" (.un .lnot (.un .lnot (.un .lnot (.var "_t13")))))]) (.assign "_t14" (.lit 0))), (.ifte (.var "_t14") (block [(.call (some "_t15") ["node"] [.var "iter"] «lfht.clear_flag»), (.assign "_t16" (.un .lnot (.un .lnot (.bin .eq (.pload (.fieldAddr (.var "_t15") "reverse_hash")) (.pload (.fieldAddr (.var "node") "reverse_hash"))))))]) (.assign "_t16" (.lit 0))), (.ifte (.var "_t16") (block [(.pstore (.fieldAddr (.addrGlob "&d_iter") "node") (.var "node")), (.pstore (.fieldAddr (.addrGlob "&d_iter") "next") (.var "iter")), (.call none ["ht", "match", "key", "iter"] [.var "ht", .var "match", .var "key", .addrGlob "&d_iter"] «lfht.cds_lfht_next_duplicate»), (.ifte (.un .lnot (.pload (.fieldAddr (.addrGlob "&d_iter") "node"))) (block [(.assign "_goto_insert" (.lit 1)), (.brk)]) (.skip)), (.ifte (.var "_goto_insert") (.brk) (block [(.assign "_t17" (.pload (.addrGlob "&d_iter"))), (.pstore (.var "unique_ret") (.var "_t17")), (.ret none)]))]) (.skip)), (.ifte (.var "_goto_insert") (.brk) (block [(.call (some "_t18") ["node"] [.var "iter"] «lfht.clear_flag»), (.ifte (.bin .ne (.pload (.fieldAddr (.var "iter_prev") "reverse_hash")) (.pload (.fieldAddr (.var "_t18") "reverse_hash"))) (block [(.call (some "_t19") ["node"] [.var "next"] «lfht.is_bucket»), (.assign "_t20" (.un .lnot (.un .lnot (.un .lnot (.var "_t19")))))]) (.assign "_t20" (.lit 0))), (.ifte (.var "_t20") (block [(.assign "chain_len" (.bin .add (.var "chain_len") (.lit 1))), (.prim none (.ext "check_resize") [.var "ht", .var "size", .var "chain_len"])]) (.skip)), (.call (some "_t21") ["node"] [.var "iter"] «lfht.clear_flag»), (.assign "iter_prev" (.var "_t21")), (.assign "iter" (.var "next"))]))]))]))]))]))])), (.assign "_goto_insert" (.lit 0)), (.ifte (.var "_goto_gc_node") (.skip) (block [(.call (some "_t22") ["node"] [.var "iter"] «lfht.clear_flag»), (.ifte (.bin .ne (.var "node") (.var "_t22")) (.skip) (.prim none (.ext "abort") [])), (.call (some "_t23") ["node"] [.var "iter_prev"] «lfht.is_removed»), (.ifte (.un .lnot (.var "_t23")) (.skip) (.prim none (.ext "abort") [])), (.call (some "_t24") ["node"] [.var "iter_prev"] «lfht.is_removal_owner»), (.ifte (.un .lnot (.var "_t24")) (.skip) (.prim none (.ext "abort") [])), (.call (some "_t25") ["node"] [.var "iter"] «lfht.is_removed»), (.ifte (.un .lnot (.var "_t25")) (.skip) (.prim none (.ext "abort") [])), (.call (some "_t26") ["node"] [.var "iter"] «lfht.is_removal_owner»), (.ifte (.un .lnot (.var "_t26")) (.skip) (.prim none (.ext "abort") [])), (.ifte (.un .lnot (.var "bucket_flag")) (block [(.call (some "_t27") ["node"] [.var "iter"] «lfht.clear_flag»), (.assign "_t28" (.var "_t27")), (.pstore (.fieldAddr (.var "node") "next") (.var "_t28"))]) (block [(.call (some "_t29") ["node"] [.var "iter"] «lfht.clear_flag»), (.call (some "_t30") ["node"] [.var "_t29"] «lfht.flag_bucket»), (.assign "_t31" (.var "_t30")), (.pstore (.fieldAddr (.var "node") "next") (.var "_t31"))])), (.call (some "_t32") ["node"] [.var "iter"] «lfht.is_bucket»), (.ifte (.var "_t32") (block [(.call (some "_t33") ["node"] [.var "node"] «lfht.flag_bucket»), (.assign "new_node" (.var "_t33"))]) (.assign "new_node" (.var "node"))), (.prim (some "_t34") .ucmpxchg [.fieldAddr (.var "iter_prev") "next", .var "iter", .var "new_node", .cst "CMM_SEQ_CST_FENCE" (6), .cst "CMM_RELAXED" (0)]), (.ifte (.bin .ne (.var "_t34") (.var "iter")) (.cont) (block [(.assign "return_node" (.var "node")), (.assign "_goto_end" (.lit 1)), (.brk)]))])), (.assign "_goto_gc_node" (.lit 0)), (.ifte (.var "_goto_end") (.brk) (block [(.call (some "_t35") ["node"] [.var "iter"] «lfht.is_removed»), (.ifte (.un .lnot (.var "_t35")) (.skip) (.prim none (.ext "abort") [])), (.call (some "_t36") ["node"] [.var "iter"] «lfht.is_removal_owner»), (.ifte (.un .lnot (.var "_t36")) (.skip) (.prim none (.ext "abort") [])), (.call (some "_t37") ["node"] [.var "iter"] «lfht.is_bucket»), (.ifte (.var "_t37") (block [(.call (some "_t38") ["node"] [.var "next"] «lfht.clear_flag»), (.call (some "_t39") ["node"] [.var "_t38"] «lfht.flag_bucket»), (.assign "new_next" (.var "_t39"))]) (block [(.call (some "_t40") ["node"] [.var "next"] «lfht.clear_flag»), (.assign "new_next" (.var "_t40"))])), (.prim none .ucmpxchg [.fieldAddr (.var "iter_prev") "next", .var "iter", .var "new_next", .cst "CMM_SEQ_CST_FENCE" (6), .cst "CMM_RELAXED" (0)])]))])), (.assign "_goto_end" (.lit 0)), (.ifte (.var "unique_ret") (block [(.assign "_t41" (.var "return_node")), (.pstore (.fieldAddr (.var "unique_ret") "node") (.var "_t41"))]) (.skip))]
+def «lfht._cds_lfht_add.params» : List String := ["ht", "hash", "match", "key", "size", "node", "unique_ret", "bucket_flag"]
+
+/-- `flag_removal_owner` (src/rculfhash.c) -/
+def «lfht.flag_removal_owner» : Stmt :=
+  .ret (some (.bin .tagor (.var "node") (.cst "lfht.REMOVAL_OWNER_FLAG" (4))))
+def «lfht.flag_removal_owner.params» : List String := ["node"]
+
+/-- `_cds_lfht_del` (src/rculfhash.c) -/
+def «lfht._cds_lfht_del» : Stmt :=
+  block [(.ifte (.un .lnot (.var "node")) (.ret (some (.un .neg (.cst "ENOENT" (2))))) (.skip)), (.call (some "_t1") ["node"] [.var "node"] «lfht.is_bucket»), (.ifte (.un .lnot (.var "_t1")) (.skip) (.prim none (.ext "abort") [])), (.call (some "_t2") ["node"] [.var "node"] «lfht.is_removed»), (.ifte (.un .lnot (.var "_t2")) (.skip) (.prim none (.ext "abort") [])), (.call (some "_t3") ["node"] [.var "node"] «lfht.is_removal_owner»), (.ifte (.un .lnot (.var "_t3")) (.skip) (.prim none (.ext "abort") [])), (.prim (some "_t4") .uload [.fieldAddr (.var "node") "next", .cst "CMM_RELAXED" (0)]), (.assign "next" (.var "_t4")), (.call (some "_t5") ["node"] [.var "next"] «lfht.is_removed»), (.ifte (.var "_t5") (.ret (some (.un .neg (.cst "ENOENT" (2))))) (.skip)), (.call (some "_t6") ["node"] [.var "next"] «lfht.is_bucket»), (.ifte (.un .lnot (.var "_t6")) (.skip) (.prim none (.ext "abort") [])), (.assign "node_next" (.fieldAddr (.var "node") "next")), (.prim none .uor [.var "node_next", .cst "lfht.REMOVED_FLAG" (1), .cst "CMM_RELEASE" (3)]), (.prim (some "_t7") (.ext "bit_reverse_ulong") [.pload (.fieldAddr (.var "node") "reverse_hash")]), (.call (some "_t8") ["ht", "size", "hash"] [.var "ht", .var "size", .var "_t7"] «lfht.lookup_bucket»), (.assign "bucket" (.var "_t8")), (.call none ["bucket", "node"] [.var "bucket", .var "node"] «lfht._cds_lfht_gc_bucket»), (.prim (some "_t9") .uload [.fieldAddr (.var "node") "next", .cst "CMM_RELAXED" (0)]), (.call (some "_t10") ["node"] [.var "_t9"] «lfht.is_removed»), (.ifte (.var "_t10") (.skip) (.prim none (.ext "abort") [])), (.prim (some "_t11") .uload [.fieldAddr (.var "node") "next", .cst "CMM_RELAXED" (0)]), (.call (some "_t12") ["node"] [.var "_t11"] «lfht.flag_removal_owner»), (.prim (some "_t13") .uxchg [.fieldAddr (.var "node") "next", .var "_t12", .cst "CMM_SEQ_CST_FENCE" (6)]), (.call (some "_t14") ["node"] [.var "_t13"] «lfht.is_removal_owner»), (.ifte (.un .lnot (.var "_t14")) (.ret (some (.lit 0))) (.ret (some (.un .neg (.cst "ENOENT" (2))))))]
+def «lfht._cds_lfht_del.params» : List String := ["ht", "size", "node"]
+
+/-- `flag_removed_or_removal_owner` (src/rculfhash.c) -/
+def «lfht.flag_removed_or_removal_owner» : Stmt :=
+  .ret (some (.bin .bor (.bin .tagor (.var "node") (.cst "lfht.REMOVED_FLAG" (1))) (.cst "lfht.REMOVAL_OWNER_FLAG" (4))))
+def «lfht.flag_removed_or_removal_owner.params» : List String := ["node"]
+
+/-- `_cds_lfht_replace` (src/rculfhash.c) -/
+def «lfht._cds_lfht_replace» : Stmt :=
+  block [(.ifte (.un .lnot (.var "old_node")) (.ret (some (.un .neg (.cst "ENOENT" (2))))) (.skip)), (.call (some "_t1") ["node"] [.var "old_node"] «lfht.is_removed»), (.ifte (.un .lnot (.var "_t1")) (.skip) (.prim none (.ext "abort") [])), (.call (some "_t2") ["node"] [.var "old_node"] «lfht.is_removal_owner»), (.ifte (.un .lnot (.var "_t2")) (.skip) (.prim none (.ext "abort") [])), (.call (some "_t3") ["node"] [.var "old_node"] «lfht.is_bucket»), (.ifte (.un .lnot (.var "_t3")) (.skip) (.prim none (.ext "abort") [])), (.call (some "_t4") ["node"] [.var "new_node"] «lfht.is_removed»), (.ifte (.un .lnot (.var "_t4")) (.skip) (.prim none (.ext "abort") [])), (.call (some "_t5") ["node"] [.var "new_node"] «lfht.is_removal_owner»), (.ifte (.un .lnot (.var "_t5")) (.skip) (.prim none (.ext "abort") [])), (.call (some "_t6") ["node"] [.var "new_node"] «lfht.is_bucket»), (.ifte (.un .lnot (.var "_t6")) (.skip) (.prim none (.ext "abort") [])), (.loop (block [(.call (some "_t7") ["node"] [.var "old_next"] «lfht.is_removed»), (.ifte (.var "_t7") (.ret (some (.un .neg (.cst "ENOENT" (2))))) (.skip)), (.call (some "_t8") ["node"] [.var "old_next"] «lfht.clear_flag»), (.ifte (.bin .eq (.var "old_next") (.var "_t8")) (.skip) (.prim none (.ext "abort") [])), (.call (some "_t9") ["node"] [.var "old_next"] «lfht.is_removal_owner»), (.ifte (.un .lnot (.var "_t9")) (.skip) (.prim none (.ext "abort") [])), (.assign "_t10" (.var "old_next")), (.pstore (.fieldAddr (.var "new_node") "next") (.var "_t10")), (.call (some "_t11") ["node"] [.var "new_node"] «lfht.flag_removed_or_removal_owner»), (.prim (some "_t12") .ucmpxchg [.fieldAddr (.var "old_node") "next", .var "old_next", .var "_t11", .cst "CMM_SEQ_CST_FENCE" (6), .cst "CMM_RELAXED" (0)]), (.assign "ret_next" (.var "_t12")), (.ifte (.bin .eq (.var "ret_next") (.var "old_next")) (.brk) (.skip)), (.assign "old_next" (.var "ret_next"))])), (.prim (some "_t13") (.ext "bit_reverse_ulong") [.pload (.fieldAddr (.var "old_node") "reverse_hash")]), (.call (some "_t14") ["ht", "size", "hash"] [.var "ht", .var "size", .var "_t13"] «lfht.lookup_bucket»), (.assign "bucket" (.var "_t14")), (.call none ["bucket", "node"] [.var "bucket", .var "new_node"] «lfht._cds_lfht_gc_bucket»), (.prim (some "_t15") .uload [.fieldAddr (.var "old_node") "next", .cst "CMM_RELAXED" (0)]), (.call (some "_t16") ["node"] [.var "_t15"] «lfht.is_removed»), (.ifte (.var "_t16") (.skip) (.prim none (.ext "abort") [])), (.ret (some (.lit 0)))]
+def «lfht._cds_lfht_replace.params» : List String := ["ht", "size", "old_node", "old_next", "new_node"]
+
+/-- `cds_lfht_lookup` (src/rculfhash.c) -/
+def «lfht.cds_lfht_lookup» : Stmt :=
+  block [(.prim none (.ext "cds_lfht_iter_debug_set_ht") [.var "ht", .var "iter"]), (.prim (some "_t1") (.ext "bit_reverse_ulong") [.var "hash"]), (.assign "reverse_hash" (.var "_t1")), (.prim (some "_t2") .uload [.fieldAddr (.var "ht") "size", .cst "CMM_ACQUIRE" (2)]), (.assign "size" (.var "_t2")), (.call (some "_t3") ["ht", "size", "hash"] [.var "ht", .var "size", .var "hash"] «lfht.lookup_bucket»), (.assign "bucket" (.var "_t3")), (.prim (some "_t4") .uload [.fieldAddr (.var "bucket") "next", .cst "CMM_CONSUME" (1)]), (.assign "node" (.var "_t4")), (.call (some "_t5") ["node"] [.var "node"] «lfht.clear_flag»), (.assign "node" (.var "_t5")), (.loop (block [(.call (some "_t6") ["node"] [.var "node"] «lfht.is_end»), (.ifte (.var "_t6") (block [(.assign "next" (.null)), (.assign "node" (.var "next")), (.brk)]) (.skip)), (.ifte (.bin .gt (.pload (.fieldAddr (.var "node") "reverse_hash")) (.var "reverse_hash")) (block [(.assign "next" (.null)), (.assign "node" (.var "next")), (.brk)]) (.skip)), (.prim (some "_t7") .uload [.fieldAddr (.var "node") "next", .cst "CMM_CONSUME" (1)]), (.assign "next" (.var "_t7")), (.call (some "_t8") ["node"] [.var "node"] «lfht.clear_flag»), (.ifte (.bin .eq (.var "node") (.var "_t8")) (.skip) (.prim none (.ext "abort") [])), (.call (some "_t9") ["node"] [.var "next"] «lfht.is_removed»), (.ifte (.un .lnot (.var "_t9")) (block [(.call (some "_t10") ["node"] [.var "next"] «lfht.is_bucket»), (.assign "_t11" (.un .lnot (.un .lnot (.un .lnot (.var "_t10")))))]) (.assign "_t11" (.lit 0))), (.ifte (.bin .land (.var "_t11") (.bin .eq (.pload (.fieldAddr (.var "node") "reverse_hash")) (.var "reverse_hash"))) (block [(.prim (some "_t12") (.ext "match") [.var "node", .var "key"]), (.assign "_t13" (.un .lnot (.un .lnot (.var "_t12"))))]) (.assign "_t13" (.lit 0))), (.ifte (.var "_t13") (.brk) (.skip)), (.call (some "_t14") ["node"] [.var "next"] «lfht.clear_flag»), (.assign "node" (.var "_t14"))])), (.ifte (.un .lnot (.var "node")) (.assign "_t17" (.lit 1)) (block [(.prim (some "_t15") .uload [.fieldAddr (.var "node") "next", .cst "CMM_RELAXED" (0)]), (.call (some "_t16") ["node"] [.var "_t15"] «lfht.is_bucket»), (.assign "_t17" (.un .lnot (.un .lnot (.un .lnot (.var "_t16")))))])), (.ifte (.var "_t17") (.skip) (.prim none (.ext "abort") [])), (.assign "_t18" (.var "node")), (.pstore (.fieldAddr (.var "iter") "node") (.var "_t18")), (.assign "_t19" (.var "next")), (.pstore (.fieldAddr (.var "iter") "next") (.var "_t19"))]
+def «lfht.cds_lfht_lookup.params» : List String := ["ht", "hash", "match", "key", "iter"]
+
+/-- `cds_lfht_next` (src/rculfhash.c) -/
+def «lfht.cds_lfht_next» : Stmt :=
+  block [(.prim none (.ext "cds_lfht_iter_debug_assert") [.bin .eq (.var "ht") (.pload (.fieldAddr (.var "iter") "lfht"))]), (.call (some "_t1") ["node"] [.pload (.fieldAddr (.var "iter") "next")] «lfht.clear_flag»), (.assign "node" (.var "_t1")), (.loop (block [(.call (some "_t2") ["node"] [.var "node"] «lfht.is_end»), (.ifte (.var "_t2") (block [(.assign "next" (.null)), (.assign "node" (.var "next")), (.brk)]) (.skip)), (.prim (some "_t3") .uload [.fieldAddr (.var "node") "next", .cst "CMM_CONSUME" (1)]), (.assign "next" (.var "_t3")), (.call (some "_t4") ["node"] [.var "next"] «lfht.is_removed»), (.ifte (.un .lnot (.var "_t4")) (block [(.call (some "_t5") ["node"] [.var "next"] «lfht.is_bucket»), (.assign "_t6" (.un .lnot (.un .lnot (.un .lnot (.var "_t5")))))]) (.assign "_t6" (.lit 0))), (.ifte (.var "_t6") (.brk) (.skip)), (.call (some "_t7") ["node"] [.var "next"] «lfht.clear_flag»), (.assign "node" (.var "_t7"))])), (.ifte (.un .lnot (.var "node")) (.assign "_t10" (.lit 1)) (block [(.prim (some "_t8") .uload [.fieldAddr (.var "node") "next", .cst "CMM_RELAXED" (0)]), (.call (some "_t9") ["node"] [.var "_t8"] «lfht.is_bucket»), (.assign "_t10" (.un .lnot (.un .lnot (.un .lnot (.var "_t9")))))])), (.ifte (.var "_t10") (.skip) (.prim none (.ext "abort") [])), (.assign "_t11" (.var "node")), (.pstore (.fieldAddr (.var "iter") "node") (.var "_t11")), (.assign "_t12" (.var "next")), (.pstore (.fieldAddr (.var "iter") "next") (.var "_t12"))]
+def «lfht.cds_lfht_next.params» : List String := ["ht", "iter"]
+
+/-- `cds_lfht_first` (src/rculfhash.c) -/
+def «lfht.cds_lfht_first» : Stmt :=
+  block [(.prim none (.ext "cds_lfht_iter_debug_set_ht") [.var "ht", .var "iter"]), (.call (some "_t1") ["ht", "index"] [.var "ht", .lit 0] «lfht.bucket_at»), (.prim (some "_t2") .uload [.fieldAddr (.var "_t1") "next", .cst "CMM_CONSUME" (1)]), (.assign "_t3" (.var "_t2")), (.pstore (.fieldAddr (.var "iter") "next") (.var "_t3")), (.call none ["ht", "iter"] [.var "ht", .var "iter"] «lfht.cds_lfht_next»)]
+def «lfht.cds_lfht_first.params» : List String := ["ht", "iter"]
+
+/-- `cds_lfht_add` (src/rculfhash.c) -/
+def «lfht.cds_lfht_add» : Stmt :=
+  block [(.prim (some "_t1") (.ext "bit_reverse_ulong") [.var "hash"]), (.assign "_t2" (.var "_t1")), (.pstore (.fieldAddr (.var "node") "reverse_hash") (.var "_t2")), (.prim (some "_t3") .uload [.fieldAddr (.var "ht") "size", .cst "CMM_ACQUIRE" (2)]), (.assign "size" (.var "_t3")), (.call none ["ht", "hash", "match", "key", "size", "node", "unique_ret", "bucket_flag"] [.var "ht", .var "hash", .null, .null, .var "size", .var "node", .null, .lit 0] «lfht._cds_lfht_add»), (.prim none (.ext "ht_count_add") [.var "ht", .var "size", .var "hash"])]
+def «lfht.cds_lfht_add.params» : List String := ["ht", "hash", "node"]
+
+/-- `cds_lfht_add_unique` (src/rculfhash.c) -/
+def «lfht.cds_lfht_add_unique» : Stmt :=
+  block [(.prim (some "_t1") (.ext "bit_reverse_ulong") [.var "hash"]), (.assign "_t2" (.var "_t1")), (.pstore (.fieldAddr (.var "node") "reverse_hash") (.var "_t2")), (.prim (some "_t3") .uload [.fieldAddr (.var "ht") "size", .cst "CMM_ACQUIRE" (2)]), (.assign "size" (.var "_t3")), (.call none ["ht", "hash", "match", "key", "size", "node", "unique_ret", "bucket_flag"] [.var "ht", .var "hash", .var "match", .var "key", .var "size", .var "node", .addrGlob "&iter", .lit 0] «lfht._cds_lfht_add»), (.ifte (.bin .eq (.pload (.fieldAddr (.addrGlob "&iter") "node")) (.var "node")) (.prim none (.ext "ht_count_add") [.var "ht", .var "size", .var "hash"]) (.skip)), (.ret (some (.pload (.fieldAddr (.addrGlob "&iter") "node"))))]
+def «lfht.cds_lfht_add_unique.params» : List String := ["ht", "hash", "match", "key", "node"]
+
+/-- `cds_lfht_add_replace` (src/rculfhash.c) -/
+def «lfht.cds_lfht_add_replace» : Stmt :=
+  block [(.prim (some "_t1") (.ext "bit_reverse_ulong") [.var "hash"]), (.assign "_t2" (.var "_t1")), (.pstore (.fieldAddr (.var "node") "reverse_hash") (.var "_t2")), (.prim (some "_t3") .uload [.fieldAddr (.var "ht") "size", .cst "CMM_ACQUIRE" (2)]), (.assign "size" (.var "_t3")), (.loop (block [(.call none ["ht", "hash", "match", "key", "size", "node", "unique_ret", "bucket_flag"] [.var "ht", .var "hash", .var "match", .var "key", .var "size", .var "node", .addrGlob "&iter", .lit 0] «lfht._cds_lfht_add»), (.ifte (.bin .eq (.pload (.fieldAddr (.addrGlob "&iter") "node")) (.var "node")) (block [(.prim none (.ext "ht_count_add") [.var "ht", .var "size", .var "hash"]), (.ret (some (.null)))]) (.skip)), (.call (some "_t4") ["ht", "size", "old_node", "old_next", "new_node"] [.var "ht", .var "size", .pload (.fieldAddr (.addrGlob "&iter") "node"), .pload (.fieldAddr (.addrGlob "&iter") "next"), .var "node"] «lfht._cds_lfht_replace»), (.ifte (.un .lnot (.var "_t4")) (.ret (some (.pload (.fieldAddr (.addrGlob "&iter") "node")))) (.skip))]))]
+def «lfht.cds_lfht_add_replace.params» : List String := ["ht", "hash", "match", "key", "node"]
+
+/-- `cds_lfht_replace` (src/rculfhash.c) -/
+def «lfht.cds_lfht_replace» : Stmt :=
+  block [(.prim (some "_t1") (.ext "bit_reverse_ulong") [.var "hash"]), (.assign "_t2" (.var "_t1")), (.pstore (.fieldAddr (.var "new_node") "reverse_hash") (.var "_t2")), (.ifte (.un .lnot (.pload (.fieldAddr (.var "old_iter") "node"))) (.ret (some (.un .neg (.cst "ENOENT" (2))))) (.skip)), (.ifte (.bin .ne (.pload (.fieldAddr (.pload (.fieldAddr (.var "old_iter") "node")) "reverse_hash")) (.pload (.fieldAddr (.var "new_node") "reverse_hash"))) (.ret (some (.un .neg (.cst "EINVAL" (22))))) (.skip)), (.prim (some "_t3") (.ext "match") [.pload (.fieldAddr (.var "old_iter") "node"), .var "key"]), (.ifte (.un .lnot (.var "_t3")) (.ret (some (.un .neg (.cst "EINVAL" (22))))) (.skip)), (.prim (some "_t4") .uload [.fieldAddr (.var "ht") "size", .cst "CMM_ACQUIRE" (2)]), (.assign "size" (.var "_t4")), (.call (some "_t5") ["ht", "size", "old_node", "old_next", "new_node"] [.var "ht", .var "size", .pload (.fieldAddr (.var "old_iter") "node"), .pload (.fieldAddr (.var "old_iter") "next"), .var "new_node"] «lfht._cds_lfht_replace»), (.ret (some (.var "_t5")))]
+def «lfht.cds_lfht_replace.params» : List String := ["ht", "old_iter", "hash", "match", "key", "new_node"]
+
+/-- `cds_lfht_del` (src/rculfhash.c) -/
+def «lfht.cds_lfht_del» : Stmt :=
+  block [(.prim (some "_t1") .uload [.fieldAddr (.var "ht") "size", .cst "CMM_ACQUIRE" (2)]), (.assign "size" (.var "_t1")), (.call (some "_t2") ["ht", "size", "node"] [.var "ht", .var "size", .var "node"] «lfht._cds_lfht_del»), (.assign "ret" (.var "_t2")), (.ifte (.un .lnot (.var "ret")) (block [(.prim (some "_t3") (.ext "bit_reverse_ulong") [.pload (.fieldAddr (.var "node") "reverse_hash")]), (.assign "hash" (.var "_t3")), (.prim none (.ext "ht_count_del") [.var "ht", .var "size", .var "hash"])]) (.skip)), (.ret (some (.var "ret")))]
+def «lfht.cds_lfht_del.params» : List String := ["ht", "node"]
+
+/-- `cds_lfht_is_node_deleted` (src/rculfhash.c) -/
+def «lfht.cds_lfht_is_node_deleted» : Stmt :=
+  block [(.prim (some "_t1") .uload [.fieldAddr (.var "node") "next", .cst "CMM_RELAXED" (0)]), (.call (some "_t2") ["node"] [.var "_t1"] «lfht.is_removed»), (.ret (some (.var "_t2")))]
+def «lfht.cds_lfht_is_node_deleted.params» : List String := ["node"]
+
 /-- `urcu_poll_worker_cb` (src/urcu-poll-impl.h) -/
 def «poll.urcu_poll_worker_cb» : Stmt :=
   block [(.prim none (.ext "mutex_lock") [.fieldAddr (.addrGlob "poll_worker_gp_state") "lock"]), (.assign "_t1" (.pload (.fieldAddr (.fieldAddr (.addrGlob "poll_worker_gp_state") "current_state") "grace_period_id"))), (.pstore (.fieldAddr (.fieldAddr (.addrGlob "poll_worker_gp_state") "current_state") "grace_period_id") (.bin .add (.var "_t1") (.lit 1))), (.ifte (.bin .ge (.bin .sub (.pload (.fieldAddr (.fieldAddr (.addrGlob "poll_worker_gp_state") "latest_target") "grace_period_id")) (.pload (.fieldAddr (.fieldAddr (.addrGlob "poll_worker_gp_state") "current_state") "grace_period_id"))) (.lit 0)) (.prim none (.ext "call_rcu") [.fieldAddr (.addrGlob "poll_worker_gp_state") "rcu_head", .addrGlob "urcu_poll_worker_cb"]) (block [(.assign "_t2" (.lit 0)), (.pstore (.fieldAddr (.addrGlob "poll_worker_gp_state") "active") (.var "_t2"))])), (.prim none (.ext "mutex_unlock") [.fieldAddr (.addrGlob "poll_worker_gp_state") "lock"])]
@@ -786,5 +906,5 @@ def «bp.urcu_bp_after_fork_child.params» : List String := []
 
 /-- functions the translator could not express in the IR subset (listed, never defaulted) -/
 def untranslated : List String := []
-def translated : List String := ["urcu_memb_smp_mb_slave", "_urcu_memb_read_lock_update", "_urcu_memb_read_lock", "urcu_common_wake_up_gp", "_urcu_memb_read_unlock_update_and_wakeup", "_urcu_memb_read_unlock", "_urcu_memb_read_ongoing", "_urcu_mb_read_lock_update", "_urcu_mb_read_lock", "_urcu_mb_read_unlock_update_and_wakeup", "_urcu_mb_read_unlock", "_urcu_mb_read_ongoing", "urcu_bp_smp_mb_slave", "_urcu_bp_read_lock_update", "_urcu_bp_read_lock", "_urcu_bp_read_unlock", "_urcu_bp_read_ongoing", "_urcu_qsbr_read_lock", "_urcu_qsbr_read_unlock", "_urcu_qsbr_read_ongoing", "urcu_qsbr_wake_up_gp", "_urcu_qsbr_quiescent_state_update_and_wakeup", "_urcu_qsbr_quiescent_state", "_urcu_qsbr_thread_offline", "_urcu_qsbr_thread_online", "___cds_wfs_end", "_cds_wfs_push", "___cds_wfs_node_sync_next", "___cds_wfs_pop", "___cds_wfs_pop_all", "_cds_wfs_empty", "___cds_lfs_empty_head", "_cds_lfs_push", "___cds_lfs_pop", "___cds_lfs_pop_all", "_cds_lfs_empty", "___cds_wfcq_append", "_cds_wfcq_enqueue", "_cds_wfcq_empty", "___cds_wfcq_busy_wait", "___cds_wfcq_node_sync_next", "_cds_wfcq_node_init_atomic", "___cds_wfcq_dequeue_with_state", "___cds_wfcq_splice", "_cds_lfq_enqueue_rcu", "make_dummy", "enqueue_dummy", "rcu_free_dummy", "_cds_lfq_dequeue_rcu", "_cds_lfs_push_rcu", "_cds_lfs_pop_rcu", "_cds_wfq_enqueue", "urcu_ref_get_safe", "urcu_ref_put", "urcu_ref_get_unless_zero", "urcu_wait_add", "urcu_move_waiters", "urcu_wait_set_state", "_cds_wfs_node_init", "urcu_wait_node_init", "urcu_adaptative_wake_up", "urcu_adaptative_busy_wait", "call_rcu_wait", "call_rcu_wake_up", "call_rcu_completion_wait", "call_rcu_completion_wake_up", "wake_call_rcu_thread", "_cds_wfcq_node_init", "_call_rcu", "futex_wait", "futex_wake_up", "wake_worker_thread", "wake_up_defer", "wait_defer", "rcu_defer_barrier_queue", "_rcu_defer_barrier_thread", "rcu_defer_barrier_thread", "_defer_rcu", "_cds_wfs_first", "___cds_wfs_next", "_cds_wfs_next_blocking", "urcu_wake_all_waiters", "set_thread_cpu_affinity", "_cds_wfcq_init", "___cds_wfcq_splice_blocking", "___cds_wfcq_first", "___cds_wfcq_first_blocking", "___cds_wfcq_next", "___cds_wfcq_next_blocking", "call_rcu_thread", "call_rcu", "call_rcu_lock", "urcu_ref_set", "call_rcu_unlock", "rcu_barrier", "_rcu_barrier_complete", "free_completion", "workqueue_thread", "urcu_workqueue_queue_work", "urcu_workqueue_create_completion", "urcu_ref_get", "urcu_workqueue_queue_completion", "urcu_workqueue_wait_completion", "urcu_workqueue_destroy_completion", "urcu_workqueue_flush_queued_work", "urcu_workqueue_pause_worker", "urcu_workqueue_resume_worker", "_urcu_workqueue_wait_complete", "memb.smp_mb_master", "memb.wait_gp", "urcu_common_reader_state", "memb.wait_for_readers", "memb.synchronize_rcu", "memb.rcu_sys_membarrier_status", "memb.rcu_sys_membarrier_init", "memb.rcu_init", "memb.rcu_register_thread", "memb.rcu_unregister_thread", "mb.smp_mb_master", "mb.wait_gp", "mb.wait_for_readers", "mb.synchronize_rcu", "qsbr.wait_gp", "urcu_qsbr_reader_state", "qsbr.wait_for_readers", "qsbr.urcu_qsbr_read_ongoing", "qsbr.urcu_qsbr_thread_offline", "qsbr.urcu_qsbr_thread_online", "qsbr.urcu_qsbr_synchronize_rcu", "qsbr.urcu_qsbr_register_thread", "qsbr.urcu_qsbr_unregister_thread", "poll.urcu_poll_worker_cb", "poll.start_poll_synchronize_rcu", "poll.poll_state_synchronize_rcu", "bp.smp_mb_master", "urcu_bp_reader_state", "bp.wait_for_readers", "bp.urcu_bp_synchronize_rcu", "bp.urcu_bp_sys_membarrier_status", "bp.urcu_bp_sys_membarrier_init", "bp._urcu_bp_init", "bp.chunk_allocation_size", "bp.mremap_wrapper", "bp.expand_arena", "bp.arena_alloc", "bp.add_thread", "bp.urcu_bp_register", "bp.cleanup_thread", "bp.find_chunk", "bp.remove_thread", "bp.urcu_bp_exit", "bp.urcu_bp_unregister", "bp.urcu_bp_prune_registry", "bp.urcu_bp_before_fork", "bp.urcu_bp_after_fork_parent", "bp.urcu_bp_after_fork_child"]
+def translated : List String := ["urcu_memb_smp_mb_slave", "_urcu_memb_read_lock_update", "_urcu_memb_read_lock", "urcu_common_wake_up_gp", "_urcu_memb_read_unlock_update_and_wakeup", "_urcu_memb_read_unlock", "_urcu_memb_read_ongoing", "_urcu_mb_read_lock_update", "_urcu_mb_read_lock", "_urcu_mb_read_unlock_update_and_wakeup", "_urcu_mb_read_unlock", "_urcu_mb_read_ongoing", "urcu_bp_smp_mb_slave", "_urcu_bp_read_lock_update", "_urcu_bp_read_lock", "_urcu_bp_read_unlock", "_urcu_bp_read_ongoing", "_urcu_qsbr_read_lock", "_urcu_qsbr_read_unlock", "_urcu_qsbr_read_ongoing", "urcu_qsbr_wake_up_gp", "_urcu_qsbr_quiescent_state_update_and_wakeup", "_urcu_qsbr_quiescent_state", "_urcu_qsbr_thread_offline", "_urcu_qsbr_thread_online", "___cds_wfs_end", "_cds_wfs_push", "___cds_wfs_node_sync_next", "___cds_wfs_pop", "___cds_wfs_pop_all", "_cds_wfs_empty", "___cds_lfs_empty_head", "_cds_lfs_push", "___cds_lfs_pop", "___cds_lfs_pop_all", "_cds_lfs_empty", "___cds_wfcq_append", "_cds_wfcq_enqueue", "_cds_wfcq_empty", "___cds_wfcq_busy_wait", "___cds_wfcq_node_sync_next", "_cds_wfcq_node_init_atomic", "___cds_wfcq_dequeue_with_state", "___cds_wfcq_splice", "_cds_lfq_enqueue_rcu", "make_dummy", "enqueue_dummy", "rcu_free_dummy", "_cds_lfq_dequeue_rcu", "_cds_lfs_push_rcu", "_cds_lfs_pop_rcu", "_cds_wfq_enqueue", "urcu_ref_get_safe", "urcu_ref_put", "urcu_ref_get_unless_zero", "urcu_wait_add", "urcu_move_waiters", "urcu_wait_set_state", "_cds_wfs_node_init", "urcu_wait_node_init", "urcu_adaptative_wake_up", "urcu_adaptative_busy_wait", "call_rcu_wait", "call_rcu_wake_up", "call_rcu_completion_wait", "call_rcu_completion_wake_up", "wake_call_rcu_thread", "_cds_wfcq_node_init", "_call_rcu", "futex_wait", "futex_wake_up", "wake_worker_thread", "wake_up_defer", "wait_defer", "rcu_defer_barrier_queue", "_rcu_defer_barrier_thread", "rcu_defer_barrier_thread", "_defer_rcu", "_cds_wfs_first", "___cds_wfs_next", "_cds_wfs_next_blocking", "urcu_wake_all_waiters", "set_thread_cpu_affinity", "_cds_wfcq_init", "___cds_wfcq_splice_blocking", "___cds_wfcq_first", "___cds_wfcq_first_blocking", "___cds_wfcq_next", "___cds_wfcq_next_blocking", "call_rcu_thread", "call_rcu", "call_rcu_lock", "urcu_ref_set", "call_rcu_unlock", "rcu_barrier", "_rcu_barrier_complete", "free_completion", "workqueue_thread", "urcu_workqueue_queue_work", "urcu_workqueue_create_completion", "urcu_ref_get", "urcu_workqueue_queue_completion", "urcu_workqueue_wait_completion", "urcu_workqueue_destroy_completion", "urcu_workqueue_flush_queued_work", "urcu_workqueue_pause_worker", "urcu_workqueue_resume_worker", "_urcu_workqueue_wait_complete", "memb.smp_mb_master", "memb.wait_gp", "urcu_common_reader_state", "memb.wait_for_readers", "memb.synchronize_rcu", "memb.rcu_sys_membarrier_status", "memb.rcu_sys_membarrier_init", "memb.rcu_init", "memb.rcu_register_thread", "memb.rcu_unregister_thread", "mb.smp_mb_master", "mb.wait_gp", "mb.wait_for_readers", "mb.synchronize_rcu", "qsbr.wait_gp", "urcu_qsbr_reader_state", "qsbr.wait_for_readers", "qsbr.urcu_qsbr_read_ongoing", "qsbr.urcu_qsbr_thread_offline", "qsbr.urcu_qsbr_thread_online", "qsbr.urcu_qsbr_synchronize_rcu", "qsbr.urcu_qsbr_register_thread", "qsbr.urcu_qsbr_unregister_thread", "lfht.bucket_at", "lfht.lookup_bucket", "lfht.is_bucket", "lfht.is_removed", "lfht.is_removal_owner", "lfht.clear_flag", "lfht.is_end", "lfht.flag_bucket", "lfht._cds_lfht_gc_bucket", "lfht.cds_lfht_next_duplicate", "lfht._cds_lfht_add", "lfht.flag_removal_owner", "lfht._cds_lfht_del", "lfht.flag_removed_or_removal_owner", "lfht._cds_lfht_replace", "lfht.cds_lfht_lookup", "lfht.cds_lfht_next", "lfht.cds_lfht_first", "lfht.cds_lfht_add", "lfht.cds_lfht_add_unique", "lfht.cds_lfht_add_replace", "lfht.cds_lfht_replace", "lfht.cds_lfht_del", "lfht.cds_lfht_is_node_deleted", "poll.urcu_poll_worker_cb", "poll.start_poll_synchronize_rcu", "poll.poll_state_synchronize_rcu", "bp.smp_mb_master", "urcu_bp_reader_state", "bp.wait_for_readers", "bp.urcu_bp_synchronize_rcu", "bp.urcu_bp_sys_membarrier_status", "bp.urcu_bp_sys_membarrier_init", "bp._urcu_bp_init", "bp.chunk_allocation_size", "bp.mremap_wrapper", "bp.expand_arena", "bp.arena_alloc", "bp.add_thread", "bp.urcu_bp_register", "bp.cleanup_thread", "bp.find_chunk", "bp.remove_thread", "bp.urcu_bp_exit", "bp.urcu_bp_unregister", "bp.urcu_bp_prune_registry", "bp.urcu_bp_before_fork", "bp.urcu_bp_after_fork_parent", "bp.urcu_bp_after_fork_child"]
 end UrcuVerif.Gen.Src
